@@ -33,7 +33,7 @@ class World:
 
     def executor(self, contracts=None, quick_ms=300):
         ex = Exec(self.fns, self.consts, self.allocs, contracts if contracts is not None else cm.CONTRACTS)
-        ex.quick_ms = quick_ms
+        ex.quick_ms = quick_ms; ex.world_fields = self.fields
         return ex
 
     def fn(self, file, method, nth=None):
